@@ -678,9 +678,16 @@ static inline void verif_lock_guard_dtor(std_lock_guard_std_mutex *g) { g->m->g_
                 st = []
                 if obj is not None:
                     st.append(X("expr", X("cast", "void", addr(tr.lv(self.strip_base_casts(obj[0]))) if not obj[1] else tr.rv(obj[0]))))
-                for a in args:
-                    if a.get("kind") != "CXXDefaultArgExpr":
-                        st.append(X("expr", X("cast", "void", tr.discard(a))))
+                real = [a for a in args if a.get("kind") != "CXXDefaultArgExpr"]
+                mname = q.split("::")[-1]
+                if (obj is not None and mname in ("assign", "append") and len(real) == 2
+                        and all(tr.ety(a).noref().kind == "ptr" and tr.ety(a).noref().to.kind == "builtin" for a in real)):
+                    # iterator-range member of an opaque string: the standard's precondition "[first, last) is a valid range" is an obligation
+                    tr.rule("opaque std iterator range: valid-range obligation")
+                    st.append(X("expr", X("call", "verif_std_valid_range", [tr.rv(real[0]), tr.rv(real[1])], ty=Ty("builtin", name="void"))))
+                    real = []
+                for a in real:
+                    st.append(X("expr", X("cast", "void", tr.discard(a))))
                 rt = parse_type(rets)
                 v = self.opaque_value(rt)
                 if rt.kind == "ref":
